@@ -228,6 +228,24 @@ def laws(acc, tier):
         exp = issubclass(U.CLASSES[a], U.CLASSES[c]) and issubclass(U.CLASSES[b], U.CLASSES[d])
         if table[(f"dict[{a},{b}]", f"dict[{c},{d}]")] != exp:
             acc.violation({"a": f"dict[{a},{b}]", "b": f"dict[{c},{d}]"}, "law:not-covariant", {"expected": exp})
+    # a subclass origin on the left (list below Iterable / Sequence, dict below Mapping): still argument-wise
+    import collections.abc as cabc
+
+    cross = [("list", list, "Iterable", typing.Iterable, 1), ("list", list, "Sequence", cabc.Sequence, 1), ("dict", dict, "Mapping", cabc.Mapping, 2),
+             ("Iterable", typing.Iterable, "list", list, 1)]
+    names6 = ("K0", "K1", "K3", "K4", "int", "O")
+    for g1n, g1, g2n, g2, ar in cross:
+        for a in itertools.product(names6 if ar == 1 else ("K0", "K1", "int"), repeat=ar):
+            for b in itertools.product(names6 if ar == 1 else ("K0", "K1", "int"), repeat=ar):
+                A = g1[tuple(U.CLASSES[x] for x in a)] if ar > 1 else g1[U.CLASSES[a[0]]]
+                B = g2[tuple(U.CLASSES[x] for x in b)] if ar > 1 else g2[U.CLASSES[b[0]]]
+                acc.count("law_checks")
+                acc.count("evaluations")
+                origin_ok = issubclass(g1 if isinstance(g1, type) else typing.get_origin(g1) or cabc.Iterable, typing.get_origin(B) or g2)
+                exp = origin_ok and all(issubclass(U.CLASSES[x], U.CLASSES[y]) for x, y in zip(a, b))
+                got = sc(A, B)
+                if got != exp:
+                    acc.violation({"a": f"{g1n}[{','.join(a)}]", "b": f"{g2n}[{','.join(b)}]"}, "law:cross-origin-not-argument-wise", {"expected": exp, "got": got})
 
 
 def deferred(acc):
@@ -357,6 +375,6 @@ def main(tier):
              "(quick: classes, Exactly, StrictSubclass, HasMethod and a selection of unions / intersections) as two methods of one "
              "function + fallback (thorough: every ordered pair of the depth-2 selection): the method that runs must be one whose type's denotation contains C (ambiguity only when both do); Deferred[...] on a scratch module "
              "before and after import; laws: reflexivity, == issubclass on all class pairs, transitivity on all triples and "
-             "argument-wise covariance on the class + parametrised generic fragment; non-trivial = (T, C) with C in [[T]]",
+             "argument-wise covariance on the class + parametrised generic fragment (same origin, and a subclass origin on the left: list / Iterable, list / Sequence, dict / Mapping); non-trivial = (T, C) with C in [[T]]",
         assumptions=["denotation rules of vt/c13.py are the documented meaning (docs/types.md)"],
     )
